@@ -18,10 +18,13 @@ MatchPos(t, w) == SelectSeq([j \in 1..Len(tables[t]) |-> j], LAMBDA j : w = 0 \/
 
 \* effects of whole statements
 InsertAll(t, rows) == [tables EXCEPT ![t] = @ \o rows]
-UpdateFirst(t, w, v, k) == LET ps == MatchPos(t, w) IN
-   [tables EXCEPT ![t] = [j \in 1..Len(@) |-> IF \E m \in 1..k : ps[m] = j THEN v ELSE @[j]]]
-DeleteFirst(t, w, k) == LET ps == MatchPos(t, w) old == tables[t] IN
-   [tables EXCEPT ![t] = SelectSeq([j \in 1..Len(old) |-> IF \E m \in 1..k : ps[m] = j THEN -9 ELSE old[j]], LAMBDA x : x # -9)]
+\* the first k matching rows (in scan order) are exactly the matching rows at positions up to the k-th match
+UpdateFirst(t, w, v, k) == LET ps == MatchPos(t, w)
+                               lim == IF k = 0 THEN 0 ELSE ps[k] IN
+   [tables EXCEPT ![t] = [j \in 1..Len(@) |-> IF j <= lim /\ (w = 0 \/ @[j] = w) THEN v ELSE @[j]]]
+DeleteFirst(t, w, k) == LET ps == MatchPos(t, w) old == tables[t]
+                            lim == IF k = 0 THEN 0 ELSE ps[k] IN
+   [tables EXCEPT ![t] = SelectSeq([j \in 1..Len(old) |-> IF j <= lim /\ (w = 0 \/ old[j] = w) THEN -9 ELSE old[j]], LAMBDA x : x # -9)]
 
 Create(t, ok)        == /\ ok = ~Has(t)
                         /\ tables' = (IF ok THEN WithTable(t) ELSE tables)
